@@ -191,6 +191,23 @@ def run_cfg(ctx, p, cfg, release):
             r.require(has and not hs, "placeholder-only-when-absent:Line", fn=f, detail="\"???\" is written on the None edge of record.line() only")
         else:
             r.fail("line-switch", fn=f, detail="no match on record.line()")
+        # numbers are rendered by std's Display (write!/to_string), not by digit arithmetic of the encoder's own
+        for v in ("Line", "ThreadId", "ProcessId", "SystemThreadId"):
+            reg = arms.get(v, set())
+            if not reg:
+                continue
+            fns_ = [(f, reg)]
+            for c in f.calls():
+                if c.block in reg:
+                    for a in c.arg_exprs():
+                        for x in walk(a):
+                            if x[0] == "closure" and x[1] in p.fns:
+                                g_ = p.fn(x[1])
+                                fns_.append((g_, set(g_.reachable_blocks())))
+            shown = any((c.callee or "").endswith("ToString::to_string") or (c.callee or "").endswith("::write_fmt") for g_, rg_ in fns_ for c in g_.calls() if c.block in rg_)
+            digits = [(g_, b_) for g_, rg_ in fns_ for b_, i_, st_ in g_.assigns() if b_ in rg_ and st_["rv"]["k"] == "bin" and st_["rv"]["op"] in ("Rem", "Div")]
+            r.require(shown and not digits, "number-rendered-by-display:%s" % v, fn=f, detail="%s: formatted through fmt::Display (write!/to_string); no digit arithmetic" % v,
+                      fail_detail="the %s value is %s: its text is no longer std's rendering of the number" % (v, "turned into digits by hand (%% / on the value)" if digits else "not passed to fmt::Display"))
         # Newline / Target / Mdc details
         nl = [c for c in f.calls("std::io::Write::write_all") if c.block in arms.get("Newline", set())]
         r.require(len(nl) == 1 and any(x == ("const", "str", "\n") or x == ("const", "str", "\r\n") for x in walk(nl[0].arg(1))), "newline-constant", fn=f, detail="Newline writes NEWLINE")
